@@ -27,6 +27,10 @@
 (*   "portdef"  an explicit port that happens to be the default port of    *)
 (*              some network (it is still explicit), network and port in   *)
 (*              either source                                              *)
+(*   "samevalue" the command line gives a value option the very value      *)
+(*              that is its documented default while the file says         *)
+(*              something else (it is still "given"): every non-empty      *)
+(*              subset of the seven                                        *)
 (*   "teoscli"  the admin tool: its two settings, present / absent in the  *)
 (*              file x on its command line                                 *)
 (*   "bin"      cases for the real teosd binary (subset of "group" plus    *)
@@ -149,6 +153,14 @@ InitPortDef ==
             /\ InitWith("teosd", CaseFile(ctx, GroupOpts, Join(cr, Join(IF nf THEN np ELSE EmptyFn, IF pf THEN pp ELSE EmptyFn))),
                         CaseCli(ctx, GroupOpts, Join(IF nf THEN EmptyFn ELSE np, IF pf THEN EmptyFn ELSE pp)))
 
+InitSameValue ==
+    /\ "samevalue" \in Families
+    /\ \E ctx \in Contexts, cs \in SUBSET PlainOpts :
+            /\ cs # {}
+            /\ fam = "samevalue" /\ ctxv = ctx
+            /\ InitWith("teosd", CaseFile(ctx, PlainOpts, Restrict(FileVal, PlainOpts)),
+                        CaseCli(ctx, PlainOpts, Restrict(DocDefault, cs)))
+
 \* teos-cli: its two settings in every presence combination; the rest of the (shared) file comes from the context
 \* and must make no difference; its command line has nothing else.
 InitTeosCli ==
@@ -156,6 +168,10 @@ InitTeosCli ==
     /\ \E ctx \in Contexts, fs \in SUBSET ToolOpts, cs \in SUBSET ToolOpts :
             /\ fam = "teoscli" /\ ctxv = ctx
             /\ InitWith("teos-cli", CaseFile(ctx, ToolOpts, Restrict(FileVal, fs)), Restrict(CliVal, cs))
+    \/ /\ "teoscli" \in Families         \* ... and the documented default given explicitly over a file value
+       /\ \E cs \in (SUBSET ToolOpts) \ {{}} :
+            /\ fam = "teoscli" /\ ctxv = "bare"
+            /\ InitWith("teos-cli", Restrict(FileVal, ToolOpts), Restrict(ToolDocDefault, cs))
 
 \* Cases for the real binary.  Network pairs <<file, command line>>: nothing; file only; command line only; both
 \* (command line wins); unknown in either; a known name on the command line repairing an unknown one in the
@@ -191,7 +207,7 @@ InitBin ==
                  InitBinCase(BinCtxs[((i + 2 * j + k + m) % Len(BinCtxs)) + 1], BinNets[i], Bools[j], Bools[k],
                              BinCredsSel[m][1], BinCredsSel[m][2], BinOneShots[((i + j + 2 * k + m) % 3) + 1])
 
-Init == InitGroup \/ InitPlain \/ InitSwitch \/ InitFileOnly \/ InitPortDef \/ InitTeosCli \/ InitBin
+Init == InitGroup \/ InitPlain \/ InitSwitch \/ InitFileOnly \/ InitPortDef \/ InitSameValue \/ InitTeosCli \/ InitBin
 
 Next == StartupNext /\ UNCHANGED <<fam, ctxv>>
 
